@@ -102,7 +102,26 @@ def three_points_sweep(cx):
           'coordinates, a positive multiple of (p1-p0)x(p2-p0) - and clockwise (negated) otherwise, so the arc passes through the middle point', where=b.file, found=str(seen))
 
 
+def intersection_interval_rule(cx):
+    b = cx.fn('geom2::circle2::Circle2::intersection_interval')
+    if not b:
+        return
+    I0 = '(index (call *Circle2::intersections_with (param self) (param other)) 0)'
+    I1 = '(index (call *Circle2::intersections_with (param self) (param other)) 1)'
+    S = f'(call *Circle2::angle_of_point (param self) {I0})'
+    A = f'(call *signed_angle (call OPoint::sub {I0} (field center (param self))) (call OPoint::sub {I1} (field center (param self))))'
+    somes = [(s, dict(d[2:]).get('0')) for s, d in cx.rets(b) if d[0] == 'agg' and d[1].endswith('Option::Some')]
+    direct = [s for s, v in somes if match(f'(call *AngleInterval::new {S} {A})', v) is not None]
+    compl = [s for s, v in somes if match(f'(call *AngleInterval::new {S} (call *signed_compliment_2pi {A}))', v) is not None]
+    test = f'(call *AngleInterval::contains (call *AngleInterval::new {S} {A}) (call *Circle2::angle_of_point (param self) (field center (param other))))'
+    ok = len(direct) == 1 and len(compl) == 1 and cx.guarded(b, direct[0].bb, test, True) is not None and cx.guarded(b, compl[0].bb, test, False) is not None
+    cx.ob('GUARD', 'intersection_interval:which-arc', ok,
+          'of the two arcs between the crossing points (signed angle a, and its 2*pi complement) the one returned is the one containing the direction of the OTHER centre '
+          '(a small circle cut by a large close one owns the LONG arc)', where=b.file, found='; '.join(show(v)[:120] for _, v in somes))
+
+
 def run(cx):
+    intersection_interval_rule(cx)
     # ---------------------------------------------------------------- cached boxes
     n = 0
     for b in E.user_bodies(cx.facts):
